@@ -94,10 +94,27 @@ def _multi_id(m):
     return any(v >= 2 for v in seen.values())
 
 
+def _validate_twins_first(case, ev):
+    """errors() of look-alike models first (same ids, shape, signs, values; one leaf occurrence with other, hash-alike
+    bounds): a verdict remembered per 'equal' proposition instead of per definition would be handed to the model under test"""
+    n = 0
+    for tw in common.twins_one_occurrence(case["model"]):
+        try:
+            t = build.model(tw)
+            if not oracle.is_leaf(t):
+                t.errors()
+                n += 1
+        except BaseException as e:  # noqa  (twins only warm up state; they are not judged)
+            if isinstance(e, (KeyboardInterrupt, SystemExit)):
+                raise
+    ev.count("twins_validated_first", n)
+
+
 def check_sound(case, ev):
     m = _build(case, ev)
     if m is None or oracle.is_leaf(m):
         return
+    _validate_twins_first(case, ev)
     errs = call(m.errors, what="errors()")
     ok, why = oracle.well_defined(m)
     if not errs and not ok:
@@ -115,6 +132,7 @@ def check_complete(case, ev):
     if m is None or oracle.is_leaf(m):
         return
     ok, why = oracle.well_defined(m)
+    _validate_twins_first(case, ev)
     errs = call(m.errors, what="errors()")
     if not errs and not ok:
         raise Violation(f"errors() returns nothing but the model is not well-defined: {why}")
